@@ -730,6 +730,7 @@ func (d *Decoder) processPropertyElt(ectx evaluationContext, startElement xml.St
 			}
 
 			var resourceAttr, nodeIdAttr, datatypeAttr *unifiedAttr
+			var rdfPropertyAttr bool
 
 			var usedNameAttributes []string
 
@@ -753,12 +754,9 @@ func (d *Decoder) processPropertyElt(ectx evaluationContext, startElement xml.St
 				case internal.Local_Datatype_Syntax:
 					datatypeAttr = &attr
 				default:
-					return d.newTokenAttrError(
-						AttributeNotAllowedError{
-							Name: attr.Name,
-						},
-						attr,
-					)
+					// rdf:type or another property attribute in the RDF namespace; names which are
+					// not propertyAttributeURIs are rejected below
+					rdfPropertyAttr = true
 				}
 			}
 
@@ -786,7 +784,7 @@ func (d *Decoder) processPropertyElt(ectx evaluationContext, startElement xml.St
 				}
 			}
 
-			if len(otherAttrList) == 0 && resourceAttr == nil && nodeIdAttr == nil && datatypeAttr == nil {
+			if len(otherAttrList) == 0 && !rdfPropertyAttr && resourceAttr == nil && nodeIdAttr == nil && datatypeAttr == nil {
 				lit := rdf.Literal{
 					Datatype:    xsdiri.String_Datatype,
 					LexicalForm: "",
@@ -819,11 +817,11 @@ func (d *Decoder) processPropertyElt(ectx evaluationContext, startElement xml.St
 				}
 
 				for _, attr := range append(rdfAttrList, otherAttrList...) {
-					switch attr.Name.Space {
-					case internal.Space:
+					if attr.Name.Space == internal.Space {
 						switch attr.Name.Local {
 						case internal.Local_ID_Syntax, internal.Local_Resource_Syntax, internal.Local_NodeID_Syntax, internal.Local_Datatype_Syntax:
 							// already handled
+							continue
 						case internal.Local_Type_Property:
 							t := statement{
 								triple: rdf.Triple{
@@ -851,6 +849,8 @@ func (d *Decoder) processPropertyElt(ectx evaluationContext, startElement xml.St
 							}
 
 							d.statements = append(d.statements, t)
+
+							continue
 						// propertyAttributeURIs = anyURI - ( coreSyntaxTerms | rdf:Description | rdf:li | oldTerms )
 						case
 							// coreSyntaxTerms
@@ -876,46 +876,48 @@ func (d *Decoder) processPropertyElt(ectx evaluationContext, startElement xml.St
 								attr,
 							)
 						}
-					default:
-						lit := rdf.Literal{
-							Datatype:    xsdiri.String_Datatype,
-							LexicalForm: attr.Value,
-						}
 
-						if ectx.Language != nil {
-							lit.Datatype = rdfiri.LangString_Datatype
-							lit.Tag = rdf.LanguageLiteralTag{
-								Language: *ectx.Language,
-							}
-						}
-
-						t := statement{
-							triple: rdf.Triple{
-								Subject:   ot.triple.Object.(rdf.SubjectValue), // definitely iri or blank node
-								Predicate: rdf.IRI(attr.Name.Space + attr.Name.Local),
-								Object:    lit,
-							},
-							containerResource: ectx.CurrentContainer,
-						}
-
-						if d.captureTextOffsets {
-							t.textOffsets = encoding.StatementTextOffsets{}
-
-							if otv, ok := ot.textOffsets[encoding.ObjectStatementOffsets]; ok {
-								t.textOffsets[encoding.SubjectStatementOffsets] = otv
-							}
-
-							if attr.Metadata != nil {
-								t.textOffsets[encoding.PredicateStatementOffsets] = attr.Metadata.Name
-
-								if attr.Metadata.Value != nil {
-									t.textOffsets[encoding.ObjectStatementOffsets] = *attr.Metadata.Value
-								}
-							}
-						}
-
-						d.statements = append(d.statements, t)
+						// any other name in the RDF namespace is an ordinary property attribute
 					}
+
+					lit := rdf.Literal{
+						Datatype:    xsdiri.String_Datatype,
+						LexicalForm: attr.Value,
+					}
+
+					if ectx.Language != nil {
+						lit.Datatype = rdfiri.LangString_Datatype
+						lit.Tag = rdf.LanguageLiteralTag{
+							Language: *ectx.Language,
+						}
+					}
+
+					t := statement{
+						triple: rdf.Triple{
+							Subject:   ot.triple.Object.(rdf.SubjectValue), // definitely iri or blank node
+							Predicate: rdf.IRI(attr.Name.Space + attr.Name.Local),
+							Object:    lit,
+						},
+						containerResource: ectx.CurrentContainer,
+					}
+
+					if d.captureTextOffsets {
+						t.textOffsets = encoding.StatementTextOffsets{}
+
+						if otv, ok := ot.textOffsets[encoding.ObjectStatementOffsets]; ok {
+							t.textOffsets[encoding.SubjectStatementOffsets] = otv
+						}
+
+						if attr.Metadata != nil {
+							t.textOffsets[encoding.PredicateStatementOffsets] = attr.Metadata.Name
+
+							if attr.Metadata.Value != nil {
+								t.textOffsets[encoding.ObjectStatementOffsets] = *attr.Metadata.Value
+							}
+						}
+					}
+
+					d.statements = append(d.statements, t)
 				}
 			}
 
